@@ -16,10 +16,19 @@ that chain, for **every** chain length (every nesting depth):
 * `redeclare_then_close` — a declaration that shadows, followed by the close of its slot, is the
   identity on the whole table, at every depth: the outer binding and its slot are visible again.
 
-PARTIAL: the full statement — for every well-bracketed history the table equals the
-stack-of-frames environment (`scope_refines`) — is composed from these lemmas by an induction
-over `Drop`'s loop that is not yet done in Lean; it is checked by the correspondence against a
-native stack-of-frames environment and against the Go toolchain.
+Second half of this file — the full statement: `scope_refines`. A specification machine keeps a
+stack of frames (name ↦ slot per block) and a slot counter; the relation `Rel` says that for every
+name the table's chain `x, ~x, ~~x, …` is exactly the list of `x`'s slots in the frames, innermost
+first, that `indexToKey` marks exactly the live slots, and that the scope marks delimit the frames'
+slot ranges. `begin_rel`, `declare_rel` (reuse in the same block / shadow an outer binding / fresh
+name), `index_rel` and `end_rel` (through `drop_abs`, the induction over `Drop`'s loop, newest
+slot first, dead slots of already closed inner blocks skipped) preserve it, so after **every**
+history each declaration returned the same slot in both machines and every name resolves by Go's
+rule: the innermost enclosing block that declares it (`scope_refines`, `scope_refines_resolve`).
+
+What remains outside: *which* statements open blocks and declare names (the compiler's calls of
+Begin / Shadow / End: for, range, if, switch, function bodies) is compared with Go itself by the
+scoping generator.
 -/
 namespace Goat.Props.C08
 open Goat.Scope
@@ -299,6 +308,850 @@ example : Chain ((({} : Tbl).put (0, "x") 5).put (1, "x") 3) "x" 0 3 := by
     | 0 => simp
     | j + 1 => simp [Tbl.get] at hj
 
+/-! ## Refinement: the symbol table is a stack of frames -/
+
+abbrev Frame := List (String × Nat)
+abbrev Env := List Frame          -- innermost first
+
+def fget (f : Frame) (x : String) : Option Nat := (f.find? (fun b => b.1 = x)).map (·.2)
+
+/-- the slots bound to `x`, innermost first -/
+def chainOf (e : Env) (x : String) : List Nat := e.filterMap (fun f => fget f x)
+
+def allBinds (e : Env) : List (String × Nat) := e.flatten
+
+structure AbsL (l : L) (e : Env) : Prop where
+  tbl : ∀ (x : String) (j : Nat), l.get (j, x) = (chainOf e x)[j]?
+  names : ∀ f ∈ e, (f.map (·.1)).Nodup
+  slots : ((allBinds e).map (·.2)).Nodup
+  live : ∀ (x : String) (n : Nat), (x, n) ∈ allBinds e → l.i2k[n]? = some x ∧ x ≠ ""
+  dead : ∀ (n : Nat) (x : String), l.i2k[n]? = some x → x ≠ "" → (x, n) ∈ allBinds e
+
+theorem fget_some_iff (f : Frame) (hn : (f.map (·.1)).Nodup) (x : String) (n : Nat) :
+    fget f x = some n ↔ (x, n) ∈ f := by
+  induction f with
+  | nil => simp [fget]
+  | cons b t ih =>
+    simp only [List.map_cons, List.nodup_cons] at hn
+    unfold fget
+    by_cases hb : b.1 = x
+    · simp only [List.find?_cons, hb, decide_true, Option.map_some, Option.some.injEq, List.mem_cons]
+      constructor
+      · intro h; left; rw [← hb, ← h]
+      · rintro (h | h)
+        · rw [← h]
+        · exfalso; apply hn.1
+          exact List.mem_map.mpr ⟨(x, n), h, by simp [hb]⟩
+    · have hb' : ¬ (decide (b.1 = x) = true) := by simpa using hb
+      simp only [List.find?_cons, hb, decide_false, List.mem_cons]
+      have := ih hn.2
+      unfold fget at this
+      rw [this]
+      constructor
+      · intro h; exact Or.inr h
+      · rintro (h | h)
+        · exfalso; apply hb; rw [← h]
+        · exact h
+
+theorem fget_none_iff (f : Frame) (x : String) : fget f x = none ↔ ∀ n, (x, n) ∉ f := by
+  induction f with
+  | nil => simp [fget]
+  | cons b t ih =>
+    unfold fget at ih ⊢
+    by_cases hb : b.1 = x
+    · simp only [List.find?_cons, hb, decide_true, Option.map_some, reduceCtorEq, List.mem_cons, false_iff]
+      intro h
+      exact h b.2 (Or.inl (by rw [← hb]))
+    · simp only [List.find?_cons, hb, decide_false, List.mem_cons]
+      rw [ih]
+      constructor
+      · intro h n hn
+        rcases hn with hn | hn
+        · apply hb; rw [← hn]
+        · exact h n hn
+      · intro h n hn; exact h n (Or.inr hn)
+
+
+theorem chainOf_cons (f : Frame) (rest : Env) (x : String) :
+    chainOf (f :: rest) x = (match fget f x with | some n => n :: chainOf rest x | none => chainOf rest x) := by
+  unfold chainOf
+  rw [List.filterMap_cons]
+  cases fget f x <;> rfl
+
+theorem fget_mem (f : Frame) (x : String) (n : Nat) (h : fget f x = some n) : (x, n) ∈ f := by
+  unfold fget at h
+  cases hf : f.find? (fun b => b.1 = x) with
+  | none => simp [hf] at h
+  | some b =>
+    simp only [hf, Option.map_some, Option.some.injEq] at h
+    have hm := List.mem_of_find?_eq_some hf
+    have hp := List.find?_some hf
+    have : b = (x, n) := by
+      cases b with
+      | mk b1 b2 =>
+        simp only [decide_eq_true_eq] at hp
+        simp only at h
+        rw [hp, h]
+    rw [← this]; exact hm
+
+theorem chain_sublist (e : Env) (x : String) : (chainOf e x).Sublist ((allBinds e).map (·.2)) := by
+  induction e with
+  | nil => simp [chainOf, allBinds]
+  | cons f rest ih =>
+    rw [chainOf_cons]
+    have hsplit : (allBinds (f :: rest)).map (·.2) = f.map (·.2) ++ (allBinds rest).map (·.2) := by
+      simp [allBinds]
+    rw [hsplit]
+    cases hf : fget f x with
+    | none => exact ih.trans (List.sublist_append_right _ _)
+    | some n =>
+      have hm : n ∈ f.map (·.2) := List.mem_map.mpr ⟨(x, n), fget_mem f x n hf, rfl⟩
+      have h1 : [n].Sublist (f.map (·.2)) := List.singleton_sublist.mpr hm
+      exact (h1.append ih)
+
+theorem chain_mem_binds (e : Env) (x : String) (n : Nat) (h : n ∈ chainOf e x) : (x, n) ∈ allBinds e := by
+  induction e with
+  | nil => simp [chainOf] at h
+  | cons f rest ih =>
+    rw [chainOf_cons] at h
+    simp only [allBinds, List.flatten_cons, List.mem_append]
+    cases hf : fget f x with
+    | none => rw [hf] at h; exact Or.inr (ih h)
+    | some m =>
+      rw [hf] at h
+      rcases List.mem_cons.mp h with rfl | h'
+      · exact Or.inl (fget_mem f x n hf)
+      · exact Or.inr (ih h')
+
+theorem slot_lt_len {l : L} {e : Env} (h : AbsL l e) (x : String) (n : Nat) (hm : (x, n) ∈ allBinds e) :
+    n < l.i2k.length := by
+  have := (h.live x n hm).1
+  exact (List.getElem?_eq_some_iff.mp this).1
+
+theorem chain_short {l : L} {e : Env} (h : AbsL l e) (x : String) : (chainOf e x).length ≤ l.i2k.length := by
+  have hnd : (chainOf e x).Nodup := (chain_sublist e x).nodup h.slots
+  have hsub : chainOf e x ⊆ List.range l.i2k.length := by
+    intro n hn
+    exact List.mem_range.mpr (slot_lt_len h x n (chain_mem_binds e x n hn))
+  simpa using hnd.length_le_of_subset hsub
+
+theorem abs_chain {l : L} {e : Env} (h : AbsL l e) (x : String) (k : Nat) :
+    Chain l.tbl x k (l.i2k.length + 1) := by
+  have hs := chain_short h x
+  constructor
+  · intro j hj
+    have := h.tbl x (k + j)
+    unfold L.get at this
+    rw [this] at hj
+    have : k + j < (chainOf e x).length := by
+      cases hc : (chainOf e x)[k + j]? with
+      | none => simp [hc] at hj
+      | some _ => exact (List.getElem?_eq_some_iff.mp hc).1
+    omega
+  · intro j hj
+    have h1 := h.tbl x (k + j + 1)
+    have h2 := h.tbl x (k + j)
+    unfold L.get at h1 h2
+    rw [h1] at hj
+    rw [h2]
+    have : k + j + 1 < (chainOf e x).length := by
+      cases hc : (chainOf e x)[k + j + 1]? with
+      | none => simp [hc] at hj
+      | some _ => exact (List.getElem?_eq_some_iff.mp hc).1
+    rw [List.getElem?_eq_getElem (by omega)]
+    rfl
+
+
+theorem shadow_eq (l : L) (x : String) (h1 : (shadowT (l.i2k.length + 1) 0 x l.tbl).get (0, x) = none) :
+    l.shadow x = ({ tbl := (shadowT (l.i2k.length + 1) 0 x l.tbl).put (0, x) l.i2k.length, i2k := l.i2k ++ [x] },
+      l.i2k.length) := by
+  unfold L.shadow L.index L.get
+  simp [h1]
+
+/-- **shadow_abs.** Declaring `x` (not bound in the current frame) binds it to a fresh slot in the
+    current frame: every older binding of `x` moves one level out, no other name is touched. -/
+theorem shadow_abs {l : L} {f : Frame} {rest : Env} (h : AbsL l (f :: rest)) (x : String)
+    (hf : fget f x = none) (hx : x ≠ "") :
+    (l.shadow x).2 = l.i2k.length ∧ AbsL (l.shadow x).1 (((x, l.i2k.length) :: f) :: rest) := by
+  obtain ⟨s1, s2, s3⟩ := shadow_shifts x (l.i2k.length + 1) 0 l.tbl (abs_chain h x 0)
+  rw [shadow_eq l x s1]
+  refine ⟨rfl, ?_⟩
+  have hnotin : ∀ n, (x, n) ∉ f := (fget_none_iff f x).mp hf
+  have hold : chainOf (f :: rest) x = chainOf rest x := by rw [chainOf_cons, hf]
+  have hfg : fget ((x, l.i2k.length) :: f) x = some l.i2k.length := by simp [fget]
+  have hfg' : ∀ y, y ≠ x → fget ((x, l.i2k.length) :: f) y = fget f y := by
+    intro y hy
+    have : ¬ (x = y) := fun e => hy e.symm
+    simp [fget, List.find?_cons, this]
+  constructor
+  · -- tbl
+    intro y j
+    show ((shadowT (l.i2k.length + 1) 0 x l.tbl).put (0, x) l.i2k.length).get (j, y) = _
+    rw [get_put]
+    by_cases hy : y = x
+    · subst hy
+      rw [chainOf_cons, hfg]
+      cases j with
+      | zero => simp
+      | succ j =>
+        have : ¬ ((j + 1, y) : Key) = (0, y) := by simp
+        simp only [this, if_false, List.getElem?_cons_succ]
+        have := s2 j
+        simp only [Nat.zero_add] at this
+        rw [this]
+        have ht := h.tbl y j
+        unfold L.get at ht
+        rw [ht, hold]
+    · have hne : ¬ ((j, y) : Key) = (0, x) := by
+        intro e; exact hy (by simpa using (Prod.mk.inj e).2)
+      simp only [hne, if_false]
+      rw [s3 (j, y) (Or.inl hy)]
+      have ht := h.tbl y j
+      unfold L.get at ht
+      rw [ht, chainOf_cons, chainOf_cons, hfg' y hy]
+  · -- names
+    intro g hg
+    rcases List.mem_cons.mp hg with rfl | hg'
+    · simp only [List.map_cons, List.nodup_cons]
+      refine ⟨?_, h.names f (by simp)⟩
+      intro hm
+      obtain ⟨b, hb, hbx⟩ := List.mem_map.mp hm
+      exact hnotin b.2 (by rw [← hbx]; exact hb)
+    · exact h.names g (by simp [hg'])
+  · -- slots
+    have : (allBinds (((x, l.i2k.length) :: f) :: rest)).map (·.2) =
+        l.i2k.length :: (allBinds (f :: rest)).map (·.2) := by simp [allBinds]
+    rw [this, List.nodup_cons]
+    refine ⟨?_, h.slots⟩
+    intro hm
+    obtain ⟨b, hb, hbn⟩ := List.mem_map.mp hm
+    have := slot_lt_len h b.1 b.2 hb
+    omega
+  · -- live
+    intro y n hm
+    have hm' : (y, n) = (x, l.i2k.length) ∨ (y, n) ∈ allBinds (f :: rest) := by
+      simpa [allBinds] using hm
+    rcases hm' with e | hm'
+    · cases e
+      exact ⟨by simp, hx⟩
+    · obtain ⟨h1, h2⟩ := h.live y n hm'
+      have hlt : n < l.i2k.length := (List.getElem?_eq_some_iff.mp h1).1
+      exact ⟨by rw [List.getElem?_append_left hlt]; exact h1, h2⟩
+  · -- dead
+    intro n y hy hne
+    have hsplit : allBinds (((x, l.i2k.length) :: f) :: rest) = (x, l.i2k.length) :: allBinds (f :: rest) := by
+      simp [allBinds]
+    rw [hsplit]
+    by_cases hlt : n < l.i2k.length
+    · rw [List.getElem?_append_left hlt] at hy
+      exact List.mem_cons_of_mem _ (h.dead n y hy hne)
+    · have hlen := (List.getElem?_eq_some_iff.mp hy).1
+      simp only [List.length_append, List.length_singleton] at hlen
+      have hn : n = l.i2k.length := by omega
+      subst hn
+      simp at hy
+      subst hy
+      exact List.mem_cons_self
+
+
+/-! ### closing a scope -/
+
+def fcut (f : Frame) (bound : Nat) : Frame := f.filter (fun b => b.2 < bound)
+def fdel (f : Frame) (n : Nat) : Frame := f.filter (fun b => b.2 ≠ n)
+
+theorem fcut_step (f : Frame) (n : Nat) : fdel (fcut f (n + 1)) n = fcut f n := by
+  unfold fdel fcut
+  rw [List.filter_filter]
+  apply List.filter_congr
+  intro b _
+  by_cases h1 : b.2 < n
+  · have h2 : b.2 < n + 1 := by omega
+    have h3 : b.2 ≠ n := by omega
+    simp [h1, h2, h3]
+  · by_cases h3 : b.2 = n
+    · simp [h3]
+    · have h2 : ¬ b.2 < n + 1 := by omega
+      simp [h1, h2]
+
+theorem fcut_all (f : Frame) (bound : Nat) (h : ∀ b ∈ f, b.2 < bound) : fcut f bound = f := by
+  unfold fcut
+  exact List.filter_eq_self.mpr (fun b hb => by simpa using h b hb)
+
+theorem fcut_none (f : Frame) (bound : Nat) (h : ∀ b ∈ f, bound ≤ b.2) : fcut f bound = [] := by
+  unfold fcut
+  exact List.filter_eq_nil_iff.mpr (fun b hb => by have := h b hb; simp; omega)
+
+theorem fdel_id (f : Frame) (n : Nat) (h : ∀ b ∈ f, b.2 ≠ n) : fdel f n = f := by
+  unfold fdel
+  exact List.filter_eq_self.mpr (fun b hb => by simpa using h b hb)
+
+theorem fget_fdel_other (g : Frame) (x y : String) (n : Nat) (hy : y ≠ x)
+    (honly : ∀ b ∈ g, b.2 = n → b.1 = x) : fget (fdel g n) y = fget g y := by
+  induction g with
+  | nil => rfl
+  | cons b t ih =>
+    have iht := ih (fun c hc => honly c (List.mem_cons_of_mem _ hc))
+    unfold fdel fget at iht ⊢
+    by_cases hb : b.2 = n
+    · have hbx : b.1 = x := honly b List.mem_cons_self hb
+      have hby : ¬ b.1 = y := by rw [hbx]; exact fun e => hy e.symm
+      simp [List.filter_cons, hb, List.find?_cons, hby]
+      simpa using iht
+    · by_cases hby : b.1 = y
+      · simp [List.filter_cons, hb, List.find?_cons, hby]
+      · simp [List.filter_cons, hb, List.find?_cons, hby]
+        simpa using iht
+
+
+def dropStep (l' : L) (n : Nat) : L :=
+  match l'.i2k[n]? with
+  | none => l'
+  | some key =>
+    if key = "" then l'
+    else { tbl := unshadowT (l'.i2k.length + 1) 0 key (l'.tbl.del (0, key)), i2k := l'.i2k.set n "" }
+
+theorem drop_succ (l : L) (t : Nat) : l.drop (t + 1) = dropStep (l.drop t) (l.i2k.length - (t + 1)) := rfl
+
+theorem sublist_allBinds (g g' : Frame) (rest : Env) (h : g'.Sublist g) :
+    (allBinds (g' :: rest)).Sublist (allBinds (g :: rest)) := by
+  simp only [allBinds, List.flatten_cons]
+  exact h.append (List.Sublist.refl _)
+
+/-- **drop_step.** Closing slot `n` (of the innermost frame `g`): the binding with that slot, if it
+    is live, is removed and every outer binding of its name moves one level in. -/
+theorem drop_step {l' : L} {g : Frame} {rest : Env} (h : AbsL l' (g :: rest)) (n : Nat)
+    (hn : n < l'.i2k.length) (hrest : ∀ b ∈ allBinds rest, b.2 ≠ n) :
+    AbsL (dropStep l' n) (fdel g n :: rest) := by
+  obtain ⟨key, hkey⟩ : ∃ key, l'.i2k[n]? = some key := ⟨l'.i2k[n], List.getElem?_eq_getElem hn⟩
+  unfold dropStep
+  simp only [hkey]
+  by_cases hk : key = ""
+  · -- a dead slot: nothing bound to it
+    simp only [hk, if_true]
+    have hnone : ∀ b ∈ g, b.2 ≠ n := by
+      intro b hb e
+      have hm : (b.1, n) ∈ allBinds (g :: rest) := by
+        simp only [allBinds, List.flatten_cons, List.mem_append]
+        left; rw [← e]; exact hb
+      have := h.live b.1 n hm
+      rw [hkey] at this
+      exact this.2 (by rw [← hk]; exact (Option.some.inj this.1).symm)
+    rw [fdel_id g n hnone]
+    exact h
+  · simp only [hk, if_false]
+    -- the live binding (key, n) sits in g
+    have hmem : (key, n) ∈ allBinds (g :: rest) := h.dead n key hkey hk
+    have hing : (key, n) ∈ g := by
+      simp only [allBinds, List.flatten_cons, List.mem_append] at hmem
+      rcases hmem with hm | hm
+      · exact hm
+      · exact absurd rfl (hrest (key, n) hm)
+    have hgn := h.names g (by simp)
+    have hfg : fget g key = some n := (fget_some_iff g hgn key n).mpr hing
+    have hchain : chainOf (g :: rest) key = n :: chainOf rest key := by rw [chainOf_cons, hfg]
+    -- in g, slot n belongs to key only
+    have honly : ∀ b ∈ g, b.2 = n → b.1 = key := by
+      intro b hb e
+      have h1 : (b.1, b.2) ∈ allBinds (g :: rest) := by
+        simp only [allBinds, List.flatten_cons, List.mem_append]; exact Or.inl hb
+      have := (h.live b.1 b.2 h1).1
+      rw [e, hkey] at this
+      exact (Option.some.inj this).symm
+    have hfg' : fget (fdel g n) key = none := by
+      rw [fget_none_iff]
+      intro m hm
+      have hm' : (key, m) ∈ g ∧ m ≠ n := by
+        unfold fdel at hm
+        have := List.mem_filter.mp hm
+        exact ⟨this.1, by simpa using this.2⟩
+      have := (fget_some_iff g hgn key m).mpr hm'.1
+      rw [hfg] at this
+      exact hm'.2 (Option.some.inj this).symm
+    -- the table after deleting level 0 of key
+    let t1 := l'.tbl.del (0, key)
+    have g1 : ∀ k : Key, t1.get k = if k = (0, key) then none else l'.tbl.get k := fun k => get_del l'.tbl (0, key) k
+    have hc1 : Chain t1 key (0 + 1) (l'.i2k.length + 1) := by
+      have hc := abs_chain h key 1
+      constructor
+      · intro j hj
+        have e : ¬ ((0 + 1 + j, key) : Key) = (0, key) := by simp
+        rw [g1, if_neg e] at hj
+        exact hc.short j (by simpa using hj)
+      · intro j hj
+        have e1 : ¬ ((0 + 1 + j + 1, key) : Key) = (0, key) := by simp
+        have e2 : ¬ ((0 + 1 + j, key) : Key) = (0, key) := by simp
+        rw [g1, if_neg e1] at hj
+        rw [g1, if_neg e2]
+        exact hc.contig j (by simpa using hj)
+    have h0 : t1.get (0, key) = none := by rw [g1]; simp
+    obtain ⟨u1, u2⟩ := unshadow_unshifts key (l'.i2k.length + 1) 0 t1 hc1 h0
+    constructor
+    · -- tbl
+      intro y j
+      show (unshadowT (l'.i2k.length + 1) 0 key t1).get (j, y) = _
+      by_cases hy : y = key
+      · subst hy
+        have := u1 j
+        simp only [Nat.zero_add] at this
+        rw [this, g1]
+        have e : ¬ ((j + 1, y) : Key) = (0, y) := by simp
+        rw [if_neg e]
+        have ht := h.tbl y (j + 1)
+        unfold L.get at ht
+        rw [ht, hchain, chainOf_cons, hfg']
+        simp
+      · rw [u2 (j, y) (Or.inl hy), g1]
+        have e : ¬ ((j, y) : Key) = (0, key) := by
+          intro e'; exact hy (by simpa using (Prod.mk.inj e').2)
+        rw [if_neg e]
+        have ht := h.tbl y j
+        unfold L.get at ht
+        rw [ht, chainOf_cons, chainOf_cons, fget_fdel_other g key y n hy honly]
+    · -- names
+      intro f hf
+      rcases List.mem_cons.mp hf with rfl | hf'
+      · exact (List.Sublist.map _ List.filter_sublist).nodup hgn
+      · exact h.names f (by simp [hf'])
+    · -- slots
+      exact ((sublist_allBinds g (fdel g n) rest List.filter_sublist).map _).nodup h.slots
+    · -- live
+      intro y m hm
+      have hold : (y, m) ∈ allBinds (g :: rest) := (sublist_allBinds g (fdel g n) rest List.filter_sublist).subset hm
+      have hmn : m ≠ n := by
+        simp only [allBinds, List.flatten_cons, List.mem_append] at hm
+        rcases hm with hm | hm
+        · unfold fdel at hm
+          simpa using (List.mem_filter.mp hm).2
+        · exact hrest (y, m) hm
+      obtain ⟨h1, h2⟩ := h.live y m hold
+      exact ⟨by rw [List.getElem?_set_ne (Ne.symm hmn)]; exact h1, h2⟩
+    · -- dead
+      intro m y hy hne
+      have hmn : m ≠ n := by
+        intro e; subst e
+        rw [List.getElem?_set_self hn] at hy
+        exact hne (Option.some.inj hy).symm
+      rw [List.getElem?_set_ne (Ne.symm hmn)] at hy
+      have hold := h.dead m y hy hne
+      simp only [allBinds, List.flatten_cons, List.mem_append] at hold ⊢
+      rcases hold with hm | hm
+      · left
+        unfold fdel
+        exact List.mem_filter.mpr ⟨hm, by simpa using hmn⟩
+      · exact Or.inr hm
+
+
+theorem drop_abs {l : L} {f : Frame} {rest : Env} (h : AbsL l (f :: rest)) (mark : Nat)
+    (hm : mark ≤ l.i2k.length) (hrest : ∀ b ∈ allBinds rest, b.2 < mark) :
+    ∀ t, t ≤ l.i2k.length - mark → AbsL (l.drop t) (fcut f (l.i2k.length - t) :: rest) := by
+  intro t
+  induction t with
+  | zero =>
+    intro _
+    have : fcut f (l.i2k.length - 0) = f := by
+      apply fcut_all
+      intro b hb
+      have hmem : (b.1, b.2) ∈ allBinds (f :: rest) := by
+        simp only [allBinds, List.flatten_cons, List.mem_append]; exact Or.inl hb
+      simpa using slot_lt_len h b.1 b.2 hmem
+    rw [this]; exact h
+  | succ t ih =>
+    intro ht
+    have ih' := ih (by omega)
+    rw [drop_succ]
+    have hlen : (l.drop t).i2k.length = l.i2k.length := drop_length l t
+    have hstep := drop_step ih' (l.i2k.length - (t + 1)) (by rw [hlen]; omega)
+      (fun b hb => by have := hrest b hb; omega)
+    have e : l.i2k.length - t = (l.i2k.length - (t + 1)) + 1 := by omega
+    rw [e, fcut_step] at hstep
+    exact hstep
+
+/-! ### the compiler's view: scope marks -/
+
+/-- the scope marks delimit the frames' slot ranges: frame `i` owns the live slots in
+    `[mark i, mark (i-1))`, the innermost up to `top` -/
+def Marks : List Nat → Env → Nat → Prop
+  | [], [f], top => ∀ b ∈ f, b.2 < top
+  | m :: ms, f :: e', top => m ≤ top ∧ (∀ b ∈ f, m ≤ b.2 ∧ b.2 < top) ∧ Marks ms e' m
+  | _, _, _ => False
+
+theorem marks_lt : ∀ (ms : List Nat) (e : Env) (top : Nat), Marks ms e top → ∀ b ∈ allBinds e, b.2 < top := by
+  intro ms
+  induction ms with
+  | nil =>
+    intro e top h b hb
+    match e, h with
+    | [f], h => simpa [allBinds] using h b (by simpa [allBinds] using hb)
+  | cons m ms ih =>
+    intro e top h b hb
+    match e, h with
+    | f :: e', ⟨h1, h2, h3⟩ =>
+      simp only [allBinds, List.flatten_cons, List.mem_append] at hb
+      rcases hb with hb | hb
+      · exact (h2 b hb).2
+      · have := ih e' m h3 b hb
+        omega
+
+theorem marks_mono : ∀ (ms : List Nat) (e : Env) (top top' : Nat), Marks ms e top → top ≤ top' → Marks ms e top' := by
+  intro ms e top top' h hle
+  match ms, e, h with
+  | [], [f], h => exact fun b hb => Nat.lt_of_lt_of_le (h b hb) hle
+  | m :: ms, f :: e', ⟨h1, h2, h3⟩ =>
+    exact ⟨Nat.le_trans h1 hle, fun b hb => ⟨(h2 b hb).1, Nat.lt_of_lt_of_le (h2 b hb).2 hle⟩, h3⟩
+
+structure Abs (c : C) (e : Env) : Prop where
+  tab : AbsL c.l e
+  marks : Marks c.scope e c.l.i2k.length
+
+theorem chain_nil_frame (e : Env) (x : String) : chainOf ([] :: e) x = chainOf e x := by
+  rw [chainOf_cons]; rfl
+
+theorem absL_push {l : L} {e : Env} (h : AbsL l e) : AbsL l ([] :: e) := by
+  refine ⟨fun x j => by rw [chain_nil_frame]; exact h.tbl x j, ?_, ?_, ?_, ?_⟩
+  · intro f hf
+    rcases List.mem_cons.mp hf with rfl | hf'
+    · simp
+    · exact h.names f hf'
+  · simpa [allBinds] using h.slots
+  · intro x n hm; exact h.live x n (by simpa [allBinds] using hm)
+  · intro n x hx hne; simpa [allBinds] using h.dead n x hx hne
+
+theorem absL_pop {l : L} {e : Env} (h : AbsL l ([] :: e)) : AbsL l e := by
+  refine ⟨fun x j => by rw [← chain_nil_frame]; exact h.tbl x j, fun f hf => h.names f (by simp [hf]), ?_, ?_, ?_⟩
+  · simpa [allBinds] using h.slots
+  · intro x n hm; exact h.live x n (by simpa [allBinds] using hm)
+  · intro n x hx hne; simpa [allBinds] using h.dead n x hx hne
+
+/-- **begin_abs** -/
+theorem begin_abs {c : C} {e : Env} (h : Abs c e) : Abs c.begin ([] :: e) := by
+  refine ⟨absL_push h.tab, ?_⟩
+  show Marks (c.l.i2k.length :: c.scope) ([] :: e) c.l.i2k.length
+  exact ⟨Nat.le_refl _, fun b hb => by simp at hb, h.marks⟩
+
+/-- **end_abs** -/
+theorem end_abs {c : C} {f : Frame} {e' : Env} {mark : Nat} {ms : List Nat}
+    (h : Abs c (f :: e')) (hs : c.scope = mark :: ms) : Abs c.end e' := by
+  have hm := h.marks
+  rw [hs] at hm
+  obtain ⟨h1, h2, h3⟩ := hm
+  have hrest := marks_lt ms e' mark h3
+  have hd := drop_abs h.tab mark h1 hrest (c.l.i2k.length - mark) (Nat.le_refl _)
+  have hcut : fcut f (c.l.i2k.length - (c.l.i2k.length - mark)) = [] := by
+    apply fcut_none
+    intro b hb
+    have := (h2 b hb).1
+    omega
+  rw [hcut] at hd
+  have hend : c.end = { l := c.l.drop (c.l.i2k.length - mark), scope := ms } := by
+    unfold C.end; rw [hs]
+  rw [hend]
+  refine ⟨absL_pop hd, ?_⟩
+  show Marks ms e' (c.l.drop (c.l.i2k.length - mark)).i2k.length
+  rw [drop_length]
+  exact marks_mono ms e' mark _ h3 h1
+
+
+/-! ### the specification: a stack of frames with a slot counter -/
+
+structure SEnv where
+  e : Env := [[]]
+  next : Nat := 0
+
+def SEnv.begin (s : SEnv) : SEnv := { s with e := [] :: s.e }
+
+def SEnv.bind (s : SEnv) (x : String) : SEnv × Nat :=
+  match s.e with
+  | f :: rest => ({ e := ((x, s.next) :: f) :: rest, next := s.next + 1 }, s.next)
+  | [] => (s, 0)
+
+/-- `x := …` / `var x`: reuse the slot if `x` is already declared in *this* block, else a new
+    variable in this block (which hides any outer `x`) -/
+def SEnv.declare (s : SEnv) (x : String) : SEnv × Nat :=
+  match s.e with
+  | f :: _ => (match fget f x with | some n => (s, n) | none => s.bind x)
+  | [] => (s, 0)
+
+/-- `Locals.Index`: the visible variable of that name, or a new one in this block -/
+def SEnv.index (s : SEnv) (x : String) : SEnv × Nat :=
+  match (chainOf s.e x).head? with
+  | some n => (s, n)
+  | none => s.bind x
+
+def SEnv.end (s : SEnv) : SEnv :=
+  match s.e with
+  | _ :: g :: rest => { s with e := g :: rest }
+  | _ => s
+
+/-- Go's rule: the innermost enclosing block that declares the name -/
+def SEnv.resolve (s : SEnv) (x : String) : Option Nat := (chainOf s.e x).head?
+
+structure Rel (c : C) (s : SEnv) : Prop where
+  abs : Abs c s.e
+  next : s.next = c.l.i2k.length
+
+theorem resolve_eq {c : C} {s : SEnv} (h : Rel c s) (x : String) : c.resolve x = s.resolve x := by
+  unfold C.resolve SEnv.resolve
+  rw [h.abs.tab.tbl x 0]
+  cases chainOf s.e x <;> rfl
+
+theorem shadow_eq_index (l : L) (x : String) (h : l.get (0, x) = none) : l.shadow x = l.index x := by
+  unfold L.shadow
+  have : shadowT (l.i2k.length + 1) 0 x l.tbl = l.tbl := by
+    unfold shadowT
+    unfold L.get at h
+    simp [h]
+  rw [this]
+
+theorem marks_bind {ms : List Nat} {f : Frame} {rest : Env} {top : Nat} (x : String)
+    (h : Marks ms (f :: rest) top) : Marks ms (((x, top) :: f) :: rest) (top + 1) := by
+  match ms, rest, h with
+  | [], [], h =>
+    intro b hb
+    rcases List.mem_cons.mp hb with rfl | hb'
+    · exact Nat.lt_succ_self _
+    · exact Nat.lt_succ_of_lt (h b hb')
+  | m :: ms, rest, ⟨h1, h2, h3⟩ =>
+    refine ⟨Nat.le_succ_of_le h1, ?_, h3⟩
+    intro b hb
+    rcases List.mem_cons.mp hb with rfl | hb'
+    · exact ⟨h1, Nat.lt_succ_self _⟩
+    · exact ⟨(h2 b hb').1, Nat.lt_succ_of_lt (h2 b hb').2⟩
+
+/-- binding a name that the current frame does not declare -/
+theorem bind_rel {c : C} {s : SEnv} (h : Rel c s) (x : String) (hx : x ≠ "") (f : Frame) (rest : Env)
+    (he : s.e = f :: rest) (hf : fget f x = none) :
+    Rel { c with l := (c.l.shadow x).1 } (s.bind x).1 ∧ (c.l.shadow x).2 = (s.bind x).2 := by
+  have htab := h.abs.tab
+  rw [he] at htab
+  obtain ⟨hslot, habs⟩ := shadow_abs htab x hf hx
+  have hbind : s.bind x = ({ e := ((x, s.next) :: f) :: rest, next := s.next + 1 }, s.next) := by
+    unfold SEnv.bind; rw [he]
+  rw [hbind, h.next]
+  refine ⟨⟨⟨habs, ?_⟩, ?_⟩, hslot⟩
+  · have hm := h.abs.marks
+    rw [he] at hm
+    have hlen : (c.l.shadow x).1.i2k.length = c.l.i2k.length + 1 := by
+      obtain ⟨s1, _, _⟩ := shadow_shifts x (c.l.i2k.length + 1) 0 c.l.tbl (abs_chain htab x 0)
+      rw [shadow_eq c.l x s1]; simp
+    show Marks c.scope _ (c.l.shadow x).1.i2k.length
+    rw [hlen]
+    exact marks_bind x hm
+  · obtain ⟨s1, _, _⟩ := shadow_shifts x (c.l.i2k.length + 1) 0 c.l.tbl (abs_chain htab x 0)
+    show c.l.i2k.length + 1 = (c.l.shadow x).1.i2k.length
+    rw [shadow_eq c.l x s1]; simp
+
+/-- **declare_rel.** -/
+theorem declare_rel {c : C} {s : SEnv} (h : Rel c s) (x : String) (hx : x ≠ "") :
+    Rel (c.declare x).1 (s.declare x).1 ∧ (c.declare x).2 = (s.declare x).2 := by
+  have hm := h.abs.marks
+  have htab := h.abs.tab
+  -- the environment is never empty
+  obtain ⟨f, rest, he⟩ : ∃ f rest, s.e = f :: rest := by
+    cases hs : s.e with
+    | nil => rw [hs] at hm; cases hsc : c.scope <;> rw [hsc] at hm <;> exact absurd hm (by simp [Marks])
+    | cons f rest => exact ⟨f, rest, rfl⟩
+  have hget : c.l.get (0, x) = (chainOf s.e x)[0]? := htab.tbl x 0
+  rw [he] at hm htab
+  cases hf : fget f x with
+  | some n =>
+    -- declared in this block already: reuse
+    have hsd : s.declare x = (s, n) := by unfold SEnv.declare; rw [he]; simp [hf]
+    have hvis : c.l.get (0, x) = some n := by rw [hget, he, chainOf_cons, hf]; rfl
+    have hin : (x, n) ∈ f := fget_mem f x n hf
+    have hcd : c.declare x = (c, n) := by
+      unfold C.declare
+      rw [hvis]
+      cases hsc : c.scope with
+      | nil =>
+        simp only [index_visible c.l x n hvis]
+        cases c; simp_all
+      | cons mark ms =>
+        rw [hsc] at hm
+        have : ¬ n < mark := by have := (hm.2.1 (x, n) hin).1; simpa using this
+        simp only [this, if_false, index_visible c.l x n hvis]
+        cases c; simp_all
+    rw [hsd, hcd]
+    exact ⟨h, rfl⟩
+  | none =>
+    have hsd : s.declare x = s.bind x := by unfold SEnv.declare; rw [he]; simp [hf]
+    have hb := bind_rel h x hx f rest he hf
+    have hcd : c.declare x = ({ c with l := (c.l.shadow x).1 }, (c.l.shadow x).2) := by
+      unfold C.declare
+      cases hv : c.l.get (0, x) with
+      | none => simp [← shadow_eq_index c.l x hv]
+      | some n =>
+        cases hsc : c.scope with
+        | nil =>
+          -- no open block: the base frame is the only frame, so x would be declared in it
+          exfalso
+          rw [hsc] at hm
+          match rest, hm with
+          | [], _ =>
+            rw [hget, he, chainOf_cons, hf] at hv
+            simp [chainOf] at hv
+        | cons mark ms =>
+          rw [hsc] at hm
+          have hn : n < mark := by
+            rw [hget, he, chainOf_cons, hf] at hv
+            have hmem : n ∈ chainOf rest x := by
+              cases hc : chainOf rest x with
+              | nil => rw [hc] at hv; simp at hv
+              | cons a t => rw [hc] at hv; simp at hv; rw [← hv]; exact List.mem_cons_self
+            exact marks_lt ms rest mark hm.2.2 (x, n) (chain_mem_binds rest x n hmem)
+          simp [hn]
+    rw [hsd, hcd]
+    exact hb
+
+
+theorem index_rel {c : C} {s : SEnv} (h : Rel c s) (x : String) (hx : x ≠ "") :
+    Rel (c.index x).1 (s.index x).1 ∧ (c.index x).2 = (s.index x).2 := by
+  have htab := h.abs.tab
+  have hget : c.l.get (0, x) = (chainOf s.e x)[0]? := htab.tbl x 0
+  cases hc : chainOf s.e x with
+  | cons n t =>
+    have hvis : c.l.get (0, x) = some n := by rw [hget, hc]; rfl
+    have hsi : s.index x = (s, n) := by unfold SEnv.index; rw [hc]; rfl
+    have hci : c.index x = (c, n) := by
+      unfold C.index; rw [index_visible c.l x n hvis]
+    rw [hsi, hci]; exact ⟨h, rfl⟩
+  | nil =>
+    have hinv : c.l.get (0, x) = none := by rw [hget, hc]; rfl
+    have hsi : s.index x = s.bind x := by unfold SEnv.index; rw [hc]; rfl
+    have hm := h.abs.marks
+    obtain ⟨f, rest, he⟩ : ∃ f rest, s.e = f :: rest := by
+      cases hs : s.e with
+      | nil => rw [hs] at hm; cases hsc : c.scope <;> rw [hsc] at hm <;> exact absurd hm (by simp [Marks])
+      | cons f rest => exact ⟨f, rest, rfl⟩
+    have hf : fget f x = none := by
+      cases hfx : fget f x with
+      | none => rfl
+      | some n => rw [he, chainOf_cons, hfx] at hc; cases hc
+    have hb := bind_rel h x hx f rest he hf
+    have hci : c.index x = ({ c with l := (c.l.shadow x).1 }, (c.l.shadow x).2) := by
+      unfold C.index; rw [shadow_eq_index c.l x hinv]
+    rw [hsi, hci]; exact hb
+
+theorem begin_rel {c : C} {s : SEnv} (h : Rel c s) : Rel c.begin s.begin :=
+  ⟨begin_abs h.abs, h.next⟩
+
+theorem end_rel {c : C} {s : SEnv} (h : Rel c s) : Rel c.end s.end := by
+  have hm := h.abs.marks
+  cases hsc : c.scope with
+  | nil =>
+    rw [hsc] at hm
+    have hce : c.end = c := by unfold C.end; rw [hsc]
+    match hse : s.e, hm with
+    | [f], _ =>
+      have : s.end = s := by unfold SEnv.end; rw [hse]
+      rw [hce, this]; exact h
+  | cons mark ms =>
+    rw [hsc] at hm
+    match hse : s.e, hm with
+    | f :: e', ⟨h1, h2, h3⟩ =>
+      obtain ⟨g, rest, he'⟩ : ∃ g rest, e' = g :: rest := by
+        match ms, e', h3 with
+        | [], [g], _ => exact ⟨g, [], rfl⟩
+        | _ :: _, g :: rest, _ => exact ⟨g, rest, rfl⟩
+      have hsend : s.end = { s with e := e' } := by unfold SEnv.end; rw [hse, he']
+      have habs : Abs c (f :: e') := by have := h.abs; rw [hse] at this; exact this
+      have hend := end_abs habs hsc
+      rw [hsend]
+      refine ⟨hend, ?_⟩
+      show s.next = c.end.l.i2k.length
+      have : c.end = { l := c.l.drop (c.l.i2k.length - mark), scope := ms } := by unfold C.end; rw [hsc]
+      rw [this, drop_length]; exact h.next
+
+/-! ### histories -/
+
+inductive Op
+  | begin
+  | declare (x : String)
+  | index (x : String)
+  | «end»
+
+def Op.named : Op → Bool
+  | .declare x => x != ""
+  | .index x => x != ""
+  | _ => true
+
+def stepC (c : C) : Op → C × Option Nat
+  | .begin => (c.begin, none)
+  | .declare x => let (c', n) := c.declare x; (c', some n)
+  | .index x => let (c', n) := c.index x; (c', some n)
+  | .end => (c.end, none)
+
+def stepS (s : SEnv) : Op → SEnv × Option Nat
+  | .begin => (s.begin, none)
+  | .declare x => let (s', n) := s.declare x; (s', some n)
+  | .index x => let (s', n) := s.index x; (s', some n)
+  | .end => (s.end, none)
+
+def runC (c : C) : List Op → C × List (Option Nat)
+  | [] => (c, [])
+  | op :: ops => let (c', r) := stepC c op; let (c'', rs) := runC c' ops; (c'', r :: rs)
+
+def runS (s : SEnv) : List Op → SEnv × List (Option Nat)
+  | [] => (s, [])
+  | op :: ops => let (s', r) := stepS s op; let (s'', rs) := runS s' ops; (s'', r :: rs)
+
+theorem step_rel {c : C} {s : SEnv} (h : Rel c s) (op : Op) (hn : op.named = true) :
+    Rel (stepC c op).1 (stepS s op).1 ∧ (stepC c op).2 = (stepS s op).2 := by
+  cases op with
+  | begin => exact ⟨begin_rel h, rfl⟩
+  | «end» => exact ⟨end_rel h, rfl⟩
+  | declare x =>
+    have hx : x ≠ "" := by simpa [Op.named] using hn
+    have := declare_rel h x hx
+    exact ⟨this.1, by simp [stepC, stepS, this.2]⟩
+  | index x =>
+    have hx : x ≠ "" := by simpa [Op.named] using hn
+    have := index_rel h x hx
+    exact ⟨this.1, by simp [stepC, stepS, this.2]⟩
+
+theorem init_rel : Rel {} {} := by
+  refine ⟨⟨⟨?_, ?_, ?_, ?_, ?_⟩, ?_⟩, rfl⟩
+  · intro x j
+    show (({} : Tbl)).get (j, x) = _
+    have : chainOf [[]] x = [] := by simp [chainOf, fget]
+    show _ = (chainOf [[]] x)[j]?
+    rw [this]
+    simp [Tbl.get]
+  · intro f hf; simp at hf; subst hf; simp
+  · simp [allBinds]
+  · intro x n hm; simp [allBinds] at hm
+  · intro n x hx; simp at hx
+  · show Marks [] [[]] 0
+    intro b hb; simp at hb
+
+/-- **scope_refines.** For every history of block entries, declarations, hidden-variable look-ups
+    and block exits (however deep, however names repeat), the symbol table with its `~`-chains and
+    the stack-of-frames specification stay related: every declaration returns the same slot in
+    both, and afterwards every name resolves to the same slot — Go's rule "the innermost enclosing
+    block that declares the name". -/
+theorem scope_refines (ops : List Op) (hn : ∀ op ∈ ops, op.named = true) :
+    ∀ (c : C) (s : SEnv), Rel c s →
+      Rel (runC c ops).1 (runS s ops).1 ∧ (runC c ops).2 = (runS s ops).2 := by
+  induction ops with
+  | nil => intro c s h; exact ⟨h, rfl⟩
+  | cons op ops ih =>
+    intro c s h
+    have hs := step_rel h op (hn op (by simp))
+    have := ih (fun o ho => hn o (by simp [ho])) _ _ hs.1
+    simp only [runC, runS]
+    exact ⟨this.1, by rw [hs.2, this.2]⟩
+
+theorem scope_refines_resolve (ops : List Op) (hn : ∀ op ∈ ops, op.named = true) (x : String) :
+    (runC {} ops).1.resolve x = (runS {} ops).1.resolve x :=
+  resolve_eq (scope_refines ops hn {} {} init_rel).1 x
+
+
+/-! ### non-vacuity: `x` declared at three nesting levels, the inner two closed again -/
+
+example :
+    let ops := [Op.declare "x", .begin, .declare "y", .declare "x", .begin, .declare "x", .end, .declare "z", .end]
+    (runS {} ops).2 = [some 0, none, some 1, some 2, none, some 3, none, some 4, none] ∧
+    (runS {} ops).1.resolve "x" = some 0 ∧ (runS {} ops).1.resolve "y" = none := by decide
+
 end Goat.Props.C08
 
 #print axioms Goat.Props.C08.shadow_shifts
@@ -307,3 +1160,11 @@ end Goat.Props.C08
 #print axioms Goat.Props.C08.index_fresh
 #print axioms Goat.Props.C08.index_visible
 #print axioms Goat.Props.C08.drop_length
+#print axioms Goat.Props.C08.shadow_abs
+#print axioms Goat.Props.C08.drop_step
+#print axioms Goat.Props.C08.drop_abs
+#print axioms Goat.Props.C08.declare_rel
+#print axioms Goat.Props.C08.index_rel
+#print axioms Goat.Props.C08.end_rel
+#print axioms Goat.Props.C08.scope_refines
+#print axioms Goat.Props.C08.scope_refines_resolve
